@@ -14,9 +14,11 @@ import (
 	"regexp"
 	"strconv"
 	"strings"
+	"time"
 
 	"github.com/junegunn/fzf/src/util"
 	"github.com/junegunn/fzf/src/zsim"
+	"github.com/junegunn/fzf/src/zsim/simnet"
 )
 
 var c15Binds = []struct{ key, action string }{
@@ -217,6 +219,17 @@ func genC15Plan(r *zsim.Rng) *sysPlan {
 			p.Events = append(p.Events, sysEvent{Kind: "settle"})
 		}
 	}
+	if r.Chance(1, 5) {
+		// jump mode ended by an action list that arrives over --listen (wave 18): the labels go, the pointer
+		// comes back - whatever the list does
+		p.Args = append([]string{"--listen", "localhost:6266"}, p.Args...)
+		p.Args = append(p.Args, "--bind", "alt-5:jump")
+		for i := r.Range(1, 3); i > 0; i-- {
+			p.Events = append(p.Events, sysEvent{Kind: "keys", Keys: "alt-5"},
+				sysEvent{Kind: "c15post", Keys: pick(r, "beginning-of-line", "end-of-line", "forward-char", "backward-char", "toggle-sort", "ignore", "up", "down"), DelayMs: r.Range(30, 300)},
+				sysEvent{Kind: "settle"})
+		}
+	}
 	p.Events = append(p.Events, sysEvent{Kind: "settle"})
 	return p
 }
@@ -235,6 +248,11 @@ func c15Settle(r *sysRun, busy bool) {
 	plan := r.plan
 	loaded, complete := r.loadedInput()
 	if !complete {
+		return
+	}
+	if t.jumping != jumpDisabled {
+		// labels instead of the pointer column: not the layout this parser knows
+		c.count("settle.jump_mode", 1)
 		return
 	}
 	cols, rows := r.tty.Size()
@@ -685,6 +703,27 @@ func runC15(c *runCtx) {
 	}
 	r := newSysRun(c, plan)
 	r.onSettle = func(r *sysRun, busy bool, final bool) { c15Settle(r, busy) }
+	if hasArg(plan.Args, "--listen") {
+		nw := simnet.New()
+		defer func() { simnet.Cur = nil }()
+		sysEventHandlers["c15post"] = func(r *sysRun, ev *sysEvent) {
+			conn := nw.Dial()
+			if conn == nil {
+				return
+			}
+			fmt.Fprintf(conn, "POST / HTTP/1.1\r\nHost: localhost\r\nContent-Length: %d\r\n\r\n%s", len(ev.Keys), ev.Keys)
+			conn.SetReadDeadline(time.Now().Add(60 * time.Second))
+			buf := make([]byte, 4096)
+			for {
+				if _, err := conn.Read(buf); err != nil {
+					break
+				}
+			}
+			conn.Close()
+			c.count("probe.posted_action_list", 1)
+		}
+		defer delete(sysEventHandlers, "c15post")
+	}
 	defer r.cleanup()
 	r.start()
 	ok := r.drive()
